@@ -401,8 +401,10 @@ public:
           O(i, j) += A(i, k) * (L[k - 1] * B(k - 1, j) + D[k] * B(k, j) + U[k] * B(k + 1, j));
         }
         if (ncA >= 2)
+        {
           O(i, j) += A(i, ncA - 1) * L[ncA - 2] * B(ncA - 2, j);
-        O(i, j) += A(i, ncA - 1) * D[ncA - 1] * B(ncA - 1, j);
+          O(i, j) += A(i, ncA - 1) * D[ncA - 1] * B(ncA - 1, j);
+        }
       }
     }
   }
